@@ -247,7 +247,16 @@ def r_get_var(ck: Checker) -> None:
     co = ck.func(f"{CLS}._collect_objectives")
     itc = ck.interp(co)
     apps = attr_calls(co, "append")
-    ck.need(len(apps) == 1, "objectives registered at one site")
+    over = [n for n in find_nodes(co.node, lambda n: isinstance(n, (ast.Assign, ast.AnnAssign))) for t in (n.targets if isinstance(n, ast.Assign) else [n.target])  # type: ignore[attr-defined]
+            if isinstance(t, ast.Subscript) and unparse(t.value).endswith("objectives")]
+    for o_ in over:
+        ck.add("objectives with the same tuple are all kept in the registry", False, co, o_, f"`{short(unparse(o_), 90)}` replaces the entry of the key",
+               "two weak constraints with the syntactically identical tuple share one key: if the later one evicts the earlier, the uniqueness test of the rewrite no longer sees it and rewrites its twin into chain tuples")
+    for a_ in apps:
+        ck.add("objectives with the same tuple are all kept in the registry", True, co, a_, f"`{short(unparse(a_), 90)}` accumulates under the key", "")
+    ck.need(len(apps) == 1 or bool(over), "objectives registered at one site")
+    if not apps:
+        return
     key = unparse(apps[0].func.value.slice).replace(" ", "")  # type: ignore[attr-defined]
     r = unparse(apps[0].args[0])
     ck.add("objectives are keyed by (weight, priority, *terms)", key == f"({r}.weight,{r}.priority,*{r}.terms)", co, apps[0], f"key `{key}`", "")
